@@ -2,6 +2,7 @@ import StepModel.ExpLexLayout
 import StepModel.ExpLexStr
 import StepModel.ExpLexGlue
 import StepModel.ExpSplitCtx
+import StepModel.ExpLexStrWhole
 /-!
 # C07, character level: what the scanner reads from the laid-out text of an expression
 
@@ -353,6 +354,34 @@ theorem C07_lex_layout_list_partial (args : Expr) (hw : lexArgs args) (st : PSta
   apply hcl
   rw [← ht]
   exact List.mem_flatMap.mpr ⟨a, ha, List.mem_map.mpr ⟨x, hx, rfl⟩⟩
+
+/-- **Exact character-level round trip with string literals that contain no dot.**  `breakLongStr` cuts a literal only after a
+dot (`nextBreakpoint`), so a literal without one is written whole at every line length (`K_str_whole`): for an expression whose
+simple string literals contain no `.` (`hdot`, on the printed tokens) the scanner reads the laid-out text as exactly
+`toks (respell e)`, and print → layout → scan → parse gives `respell e` — no `Joined`, no `joinStr`.  Literals with dots:
+`C07_lex_layout_strings_partial` + `C07_split_literals_in_context`. -/
+theorem C07_char_roundtrip_whole_strings_partial (e : Expr) (hw : wfE (respell e)) (hl : lexWFS (respell e)) (st : PState)
+    (h0 : st.pieces = []) (hs : st.spaceLast = false)
+    (hdot : ∀ b, Tok.str b ∈ toks Shared.clean (respell e) false none → '.' ∉ b) :
+    lex (run st (exprFrags Shared.clean e false none)).text = some (toks Shared.clean (respell e) false none)
+      ∧ (lex (run st (exprFrags Shared.clean e false none)).text).bind parse = some (respell e) := by
+  have hlex : lex (run st (exprFrags Shared.clean e false none)).text = some (toks Shared.clean (respell e) false none) := by
+    rw [← (frags_respellS e).1 false none hl]
+    obtain ⟨hf, ht⟩ := (annotS_eq (respell e)).1 false none hl
+    obtain ⟨hsafe, _⟩ := (safe_allS (respell e)).1 false none none hl (Or.inl rfl)
+    have hd : ∀ s p, SeqEl.strF s p ∈ annotS (respell e) false none → ∀ c ∈ s, c ≠ '.' := by
+      intro s p hmem c hc hcd
+      subst hcd
+      apply hdot (escQ s)
+      · rw [← ht]; exact List.mem_flatMap.mpr ⟨_, hmem, by simp [SeqEl.toks]⟩
+      · exact mem_escQ_of '.' s hc
+    obtain ⟨lt', hK', _⟩ := K_runW (annotS (respell e) false none) st [] none none (K_init st h0 hs) (Or.inl rfl) hsafe hd
+    rw [hf, ht] at hK'
+    have := hK'.2.1 [] [] (by cases lt' <;> trivial) (Lexes.done [] rfl)
+    exact lex_of_lexes (by simpa using this)
+  refine ⟨hlex, ?_⟩
+  rw [hlex]
+  exact C07_parse_print (respell e) hw
 
 /-- grammar token of a punctuation/operator token of the model -/
 def symTokName : Tok → Option String
